@@ -57,7 +57,10 @@ def make (spec0):
             if rng.random () < 0.15:
                 sp = 360.0 * (1 if rng.random () < 0.8 else -1)         # closed circle from any start angle
                 a1 = float (np.round (a1))
-            geo.append (dict ( k = 'a', n = int (rng.integers (3, 40)), radius = float (10 ** rng.uniform (-1, 1.5))
+            na = int (rng.integers (3, 40)) if rng.random () < 0.7 else int (rng.choice ([59, 60, 61, 118, 120, 122, 155, 197, int (rng.integers (40, 201))]))
+            if rng.random () < 0.2:
+                a1, sp = [(0.0, 360.0), (0.0, 180.0), (0.0, 90.0), (-90.0, 180.0), (10.0, 90.0), (0.0, 270.0), (30.0, 300.0), (0.0, -270.0)] [int (rng.integers (0, 8))]
+            geo.append (dict ( k = 'a', n = na, radius = float (10 ** rng.uniform (-1, 1.5))
                              , a1 = a1, a2 = a1 + sp, r = 1e-3, tag = tag))
         else:
             turn = float (10 ** rng.uniform (-1, 1)) * float (rng.choice ([1, -1]))
@@ -84,6 +87,9 @@ def make (spec0):
         tag = None if rng.random () < 0.5 else int (rng.integers (1, nobj + 1))
         if rng.random () < 0.5:
             ang = [float (np.round (rng.uniform (-180, 180), 1)) if rng.random () < 0.7 else 0.0 for k in range (3)]
+            if rng.random () < 0.25:
+                # quarter, half and whole turns, forwards and backwards, also more than one turn
+                ang [int (rng.integers (0, 3))] = float (rng.choice ([180, -180, 360, -360, 90, -90, 270, 540, 720, -270]))
             tr.append (['rotate', float (key), ang, tag])
         else:
             tr.append (['translate', float (key), [float (np.round (x, 3)) for x in rng.uniform (-50, 50, 3)], tag])
